@@ -105,3 +105,22 @@ Proof.
       f_equal. apply IH. lia. }
     rewrite F by lia. reflexivity.
 Qed.
+
+(* ---- maps with comparable keys, as association lists (the representation of Heap/Model.v: m_get / m_set / m_del) ---- *)
+Section GoMap.
+  Context {K : Type} (keqb : K -> K -> bool).
+  Fixpoint gomap_find (m : list (K * Z)) (k : K) : option Z :=
+    match m with
+    | [] => None
+    | (k', v) :: r => if keqb k k' then Some v else gomap_find r k
+    end.
+  (* v, ok := m[k]: the zero value and false for an absent key *)
+  Definition gomapget (m : list (K * Z)) (k : K) : Z * bool :=
+    match gomap_find m k with Some v => (v, true) | None => (0, false) end.
+  (* delete(m, k) *)
+  Fixpoint gomapdel (k : K) (m : list (K * Z)) : list (K * Z) :=
+    match m with
+    | [] => []
+    | (k', v') :: r => if keqb k k' then gomapdel k r else (k', v') :: gomapdel k r
+    end.
+End GoMap.
